@@ -213,6 +213,7 @@ theorem C14_batchDeleteIds_exact (hts : Tenants ts) {s : S} (hi : Inv ts s) {t :
     intro g hg d hd
     simp only [List.mem_filter] at hg
     have := hg.2
+    unfold visibleAt at this
     rw [hd] at this
     exact visible_matches this
 
